@@ -264,6 +264,18 @@ Definition opty (ops : list (vref * N)) (k : nat) : N := snd (nth k ops (VN, 0))
 Definition present (ops : list (vref * N)) (k : nat) : bool :=
   match fst (nth k ops (VN, 0)) with VN => false | _ => true end.
 
+(* argument vs parameter type: identical, or same core type with one side a type literal (assignability),
+   or a type parameter without core type on either side *)
+Definition compat (T : tytable) (a p : N) : bool :=
+  (a =? p) || negb (has_core T a) || negb (has_core T p) ||
+  ((core T a =? core T p) && (is_unnamed T a || is_unnamed T p)).
+Fixpoint args_ok (T : tytable) (args params : list N) : bool :=
+  match args, params with
+  | [], [] => true
+  | a :: args', p :: params' => compat T a p && args_ok T args' params'
+  | _, _ => false
+  end.
+
 (* BinOp class: aux = [class] with 0 arithmetic/bitwise (non-shift), 1 shift, 2 comparison *)
 Definition type_ok (T : tytable) (f : func) (i : instr) : bool :=
   let ops := i_ops i in
@@ -405,6 +417,7 @@ Definition type_ok (T : tytable) (f : func) (i : instr) : bool :=
       (is_kind T fty TSig &&
        let s := tget T (core T fty) in
        Nat.eqb (length args) (length (t_params s) + (if N.eqb recv 0 then O else 1%nat)) &&
+       args_ok T (map snd args) ((if N.eqb recv 0 then [] else [recv]) ++ t_params s) &&
        match i_kind i with
        | KCall => match t_results s with
                   | [r] => ty =? r
@@ -415,6 +428,7 @@ Definition type_ok (T : tytable) (f : func) (i : instr) : bool :=
     | [1; _; msig] =>
       (is_iface T (opty ops 0)) && tkind_eqb (t_kind (tget T msig)) TSig &&
       Nat.eqb (length args) (length (t_params (tget T msig))) &&
+      args_ok T (map snd args) (t_params (tget T msig)) &&
       match i_kind i with
       | KCall => match t_results (tget T msig) with
                  | [r] => ty =? r
